@@ -104,7 +104,8 @@ def build(case):
         if ec["kind"] == "quantity":
             cube.extra_coords.add(f"q{k}", ec["axis"], v * u.m, physical_types=f"custom:q{k}")
         elif ec["kind"] == "time":
-            cube.extra_coords.add(f"t{k}", ec["axis"], Time("2020-01-01T00:00:00", scale="utc") + v * u.min)
+            # (a Time table in any of the usual scales: the instants, not the clock readings, must be kept)
+            cube.extra_coords.add(f"t{k}", ec["axis"], Time("2020-01-01T00:00:00", scale=["utc", "tai", "tt"][case["wseed"] % 3]) + v * u.min)
         else:
             cube.extra_coords.add((f"lon{k}", f"lat{k}"), ec["axis"], SkyCoord(v * u.deg / 10, (v / 2 - 5) * u.deg / 10, frame="icrs"), mesh=False)
         tabs.append(v)
@@ -122,7 +123,7 @@ def ec_tables(cube):
     for axes, coord in cube.extra_coords._lookup_tables:
         t = coord.table
         if isinstance(t, Time):
-            arrs = [(t.mjd - 58849.0) * 1440.0]           # minutes since 2020-01-01
+            arrs = [(t.tai.mjd - 58849.0) * 1440.0]       # minutes since 2020-01-01, as instants (TAI)
         elif isinstance(t, SkyCoord) and getattr(coord, "mesh", False):
             # a meshed table keeps its slice lazily; one component per array axis
             arrs = [np.asarray(c.to_value(u.deg)) * 10 for c in coord._sliced_components]
